@@ -323,6 +323,8 @@ class C15(Prop):
             for a in facts.get("applied", []):
                 w.count("fault.%s" % a)
         w.count("probe.reader_%s" % ("returned" if outcome == "ok" else "raised"))
+        if facts.get("unterminated") and outcome != "ok":
+            w.count("probe.cut_inside_unclosed_construct_rejected")
         # (4) process-wide settings are what they were before the call, after success and after rejection
         if getattr(w, "interp_after", None) != getattr(w, "interp_before", None):
             diff = [a[0] for a, b in zip(w.interp_before, w.interp_after) if a != b]
@@ -343,6 +345,12 @@ class C15(Prop):
                 check_mirror(objs, disc, w.name_of, P="C15.half_built")
                 check_self_contained(n, objs, disc, w.name_of, "C15.half_built")
                 check_wire_endpoints(n, disc, w.name_of, P="C15.half_built")
+            if facts.get("unterminated") and tag == "faulted" and not ev.get("arch"):
+                # the only fault is a cut at a token boundary inside a module / primitive / EDIF form that the
+                # complete text closes: a netlist made of the part before the cut is a half-built one
+                raise Violation("C15.half_built.unterminated_accepted", "%s/truncate_tok" % fmt,
+                                "the reader returned a netlist for a text that ends inside an unclosed %s" % (
+                                    "form" if fmt == "edf" else "module"))
             if facts.get("must_raise"):
                 kind = [a for a in facts["applied"] if a.startswith("dangling") or a == "unsupported"][0]
                 raise Violation("C15.%s_accepted" % ("unsupported" if kind == "unsupported" else "dangling"), kind,
